@@ -138,11 +138,14 @@ def apply_tiff_predictor(
         raise PDFValueError(error_msg)
     bpp = colors * (bitspercomponent // 8)
     nbytes = columns * bpp
+    if nbytes <= 0:
+        error_msg = f"Unsupported `colors' and `columns': {colors}, {columns}"
+        raise PDFValueError(error_msg)
     buf: List[int] = []
     for scanline_i in range(0, len(data), nbytes):
         raw: List[int] = []
-        for i in range(nbytes):
-            new_value = data[scanline_i + i]
+        # the last row may be incomplete
+        for i, new_value in enumerate(data[scanline_i : scanline_i + nbytes]):
             if i >= bpp:
                 new_value += raw[i - bpp]
                 new_value %= 256
@@ -165,6 +168,10 @@ def apply_png_predictor(
     """
     if bitspercomponent not in [8, 1]:
         msg = "Unsupported `bitspercomponent': %d" % bitspercomponent
+        raise PDFValueError(msg)
+
+    if colors <= 0 or columns <= 0:
+        msg = f"Unsupported `colors' and `columns': {colors}, {columns}"
         raise PDFValueError(msg)
 
     # rows are padded to a whole number of bytes
